@@ -1,4 +1,5 @@
 import errno
+import os
 import io
 import sys
 from abc import ABC, abstractmethod
@@ -189,6 +190,23 @@ class ProxyRecordWriter(ProxyWriter):
         self.__init__(n_files, **kwargs)
 
 
+def fileformat_from_path(path) -> Optional[str]:
+    """
+    Return "fasta" or "fastq" if the file name (ignoring a compression
+    extension) says so, otherwise None.
+    """
+    name = os.fspath(path).lower()
+    for ext in (".gz", ".xz", ".bz2", ".zst"):
+        if name.endswith(ext):
+            name = name[: -len(ext)]
+            break
+    if name.endswith((".fasta", ".fa", ".fna")):
+        return "fasta"
+    if name.endswith((".fastq", ".fq")):
+        return "fastq"
+    return None
+
+
 class OutputFiles:
     def __init__(
         self,
@@ -244,6 +262,12 @@ class OutputFiles:
             paths = ("-",)
         for path in paths:
             assert path is not None
+        if "fileformat" not in kwargs:
+            # Do not leave this to dnaio: it only sees a file name for
+            # uncompressed, directly opened (non-proxied) files
+            fileformat = fileformat_from_path(paths[0])
+            if fileformat is not None:
+                kwargs["fileformat"] = fileformat
         binary_files = []
         for path in paths:
             binary_file = self._file_opener.xopen(path, "wb")
